@@ -45,6 +45,18 @@ KERNELS = {
              loc=("stmt_order", ["self.q_grouped.append(grouped[-self.connection.window:])", "self.input_node._submit(self.input_node.push_step)"]), props=["C05"]),
         dict(name="step_called_after_start", file=ASYNC, func="_AsyncNodeWrapper.push_phase_shift",
              loc=("stmt_order", ["self.q_ts_start.append((tick, ts_start, delay, record_step))", "self.push_step()"]), props=["C05"]),
+        # push_phase_shift: the scheduled tick and every blocking arrival are followed by a call; the previous end time is appended by the
+        # success itself (after it has been popped) and once at start-up
+        dict(name="shift_called_after_scheduled", file=ASYNC, func="_AsyncNodeWrapper.push_scheduled_ts",
+             loc=("stmt_order", ["self.q_ts_scheduled.append((tick, scheduled_ts))", "self.push_phase_shift()"]), props=["C05"]),
+        dict(name="shift_called_after_ts_max", file=ASYNC, func="_AsyncConnectionWrapper.push_ts_max",
+             loc=("stmt_order", ["self.q_ts_max.append(ts_max)", "self.input_node._submit(self.input_node.push_phase_shift)"]), props=["C05"]),
+        dict(name="shift_success_provides_end_prev", file=ASYNC, func="_AsyncNodeWrapper.push_phase_shift",
+             loc=("stmt_order", ["ts_end_prev = self.q_ts_end_prev.popleft()", "self.q_ts_end_prev.append(ts_output)"]), props=["C05"]),
+        dict(name="start_provides_end_prev", file=ASYNC, func="_AsyncNodeWrapper._start",
+             loc=("stmt_order", ["self.q_ts_end_prev.append(0.0)", "_f = self._submit(self.push_scheduled_ts)"]), props=["C05"]),
+        dict(name="expected_blocking_called_after_next_step", file=ASYNC, func="_AsyncNodeWrapper.push_scheduled_ts",
+             loc=("stmt_order", ["i.q_ts_next_step.append((tick, scheduled_ts))", "i._submit(i.push_expected_blocking)"]), props=["C05"]),
         dict(name="next_step_triggers_expected_nonblocking", file=ASYNC, func="_AsyncNodeWrapper.push_phase_shift",
              loc=("stmt_order", ["i.q_ts_next_step.append((tick, ts_start))", "i._submit(i.push_expected_nonblocking)"]), props=["C05"]),
     ],
